@@ -10,6 +10,10 @@ git checkout -q -- . && git clean -fdq
 git apply $O/patch.diff || { echo "RESULT $ID$X: patch does not apply"; exit 1; }
 go build ./... > /tmp/mut/$ID$X.build.log 2>&1 || { echo "RESULT $ID$X: does not compile"; git checkout -q -- .; exit 1; }
 go test -count=1 -timeout 20m $TESTS > /tmp/mut/$ID$X.tests.log 2>&1
+if grep -qE "^(--- FAIL|FAIL)" /tmp/mut/$ID$X.tests.log; then  # re-run once: some suite tests flake on second boundaries
+  PK=$(grep -E "^FAIL\s" /tmp/mut/$ID$X.tests.log | awk '{print $2}' | grep aggkit | grep -v "aggkit/bridgesync$" | sed 's#github.com/agglayer/aggkit#.#' | tr '\n' ' ')
+  if [ -n "$PK" ]; then go test -count=1 -timeout 20m $PK > /tmp/mut/$ID$X.tests.log 2>&1; fi
+fi
 FAILS=$(grep -E "^(--- FAIL|FAIL)" /tmp/mut/$ID$X.tests.log | grep -v "TestBridgeCallData\|TestClaimCalldata\|^FAIL$\|FAIL	github.com/agglayer/aggkit/bridgesync	" | head -5)
 cp $O/demo_test.go $PKG/zz_demo_verif_test.go
 go test -count=1 -timeout 10m -run 'Demo|C[0-9][0-9]' ./$PKG/ > /tmp/mut/$ID$X.demo_with.log 2>&1; WITH=$?
